@@ -35,6 +35,13 @@ if [ -z "$only" ] || echo replay | grep -q "$only"; then
     if echo "$out" | grep "^VIOLATION" | grep "$want" | grep -vq "no-failing-input-found"; then echo "ok   replay   $sd: failing input reproduced for $want"; else echo "SELFTEST FAIL (replay): $sd expected a reproduced failing input for $want"; rc=1; fi
   done
 fi
+# the contract validator must report a (deliberately negated) proved clause as a disagreement
+if [ -z "$only" ] || echo validator | grep -q "$only"; then
+  out=$(VERIF_VALIDATE_SELFTEST=Encontrol /verif/bin/rlverify validate C19 2>&1)
+  if echo "$out" | grep -q "VALIDATE-DISAGREE inputrc.Encontrol"; then echo "ok   validator reports the negated clause of Encontrol"; else echo "SELFTEST FAIL: the contract validator did not report a negated clause"; rc=1; fi
+  out=$(/verif/bin/rlverify validate C19 2>&1)
+  if echo "$out" | grep -q "VALIDATE-DISAGREE"; then echo "SELFTEST FAIL: the contract validator disagrees on the unchanged tree"; rc=1; else echo "ok   validator agrees with the proofs on the unchanged tree (C19)"; fi
+fi
 # lemma canaries: must NOT prove (an inconsistent theory would prove them)
 if [ -z "$only" ] || echo canary | grep -q "$only"; then
   out=$(/verif/bin/rlverify func zz_canary 2>&1)
